@@ -173,7 +173,7 @@ def export_tables():
     fmts = [n.func.value.value for n in ast.walk(fstr)
             if isinstance(n, ast.Call) and isinstance(n.func, ast.Attribute) and n.func.attr == "format"
             and isinstance(n.func.value, ast.Constant)]
-    if sorted(fmts) != sorted(["q[{}]", "{}({}) {};", "{} {};"]):
+    if sorted(fmts) not in (sorted(["q[{}]", "{}({}) {};", "{} {};"]), sorted(["q[{:d}]", "{}({}) {};", "{} {};"])):
         raise TranslatorError(f"_qasm_str: format strings changed: {fmts}")
     # the argument test and the container test (modelled by hand; recognised here)
     tests = [n for n in ast.walk(fstr) if isinstance(n, ast.If)]
@@ -233,7 +233,23 @@ def export_tables():
         pads_exp = False
     else:
         raise TranslatorError("_qasm_str: printing of the parameters not recognised: " + last)
+    # how `_qasm_str` joins controls and targets: `q_controls + q_targets` (lists of Python ints only) or
+    # `list(q_controls) + list(q_targets)` (any container of any integer type)
+    head = [ast.unparse(x) for x in fstr.body[:-1] if not (isinstance(x, ast.Expr) and isinstance(x.value, ast.Constant))]
+    old_head = ["if not q_controls:\n    q_controls = []", "q_regs = q_controls + q_targets",
+                "if isinstance(q_targets[0], int):\n    q_regs = ','.join(['q[{}]'.format(reg) for reg in q_regs])\nelse:\n"
+                "    q_regs = ','.join(q_regs)"]
+    new_head = ["if q_controls is None:\n    q_controls = []", "q_regs = list(q_controls) + list(q_targets)",
+                "if isinstance(q_targets[0], str):\n    q_regs = ','.join(q_regs)\nelse:\n"
+                "    q_regs = ','.join(['q[{:d}]'.format(reg) for reg in q_regs])"]
+    if head == old_head:
+        qubit_containers = False
+    elif head == new_head:
+        qubit_containers = True
+    else:
+        raise TranslatorError(f"_qasm_str: treatment of controls / targets not recognised: {head}")
     return {
+        "qubit_containers": qubit_containers,
         "pads_exp": pads_exp,
         "name_map": name_map, "defns": defns, "comment_fmt": split_fmt(comment_fmt, "definition comment", 1),
         "header": header, "qreg_fmt": split_fmt(cfmts[0], "qreg", 1), "creg_fmt": split_fmt(cfmts[1], "creg", 1),
@@ -613,6 +629,10 @@ def render():
     A("def argTestNotNone : Bool := " + ("true" if e["arg_test"] == "notNone" else "false"))
     A("/-- `_qasm_str` prints a parameter with `_qasm_real`: `1e-20` becomes `1.0e-20` -/")
     A("def exportPadsExponent : Bool := " + ("true" if e["pads_exp"] else "false"))
+    A("/-- `_qasm_str` joins `list(q_controls) + list(q_targets)` and formats every element: controls / targets may be")
+    A("lists, tuples or arrays of Python or numpy integers (otherwise: lists of Python ints only, which is what the")
+    A("model's `List Nat` stands for; the harness sends other containers only to a tree with this flag) -/")
+    A("def qubitContainersOk : Bool := " + ("true" if e["qubit_containers"] else "false"))
     A("/-- `_qasm_str`: container types joined element-wise -/")
     A("def seqKinds : List Str := " + lean_list([lean_str(k) for k in e["seq_kinds"]]))
     A("")
